@@ -8,6 +8,17 @@ group orders (model scalar multiplication of the generator *and* of random model
 GLV constants, pairing-family polynomials, embedding degree, twist curve and its generator over a measured Fp2,
 Frobenius constants, hash-to-curve constants, isogeny maps, Montgomery constants, roots of unity, security level.
 One (identifier, obligation) = one case.
+
+Selection histories: an identifier denotes one parameter set whatever the context went through before it is selected.
+For every identifier of every selection function (fp / ep / ed / fb / eb) the identifier is selected, a history of
+other public calls that change the field or curve state follows (a modulus / polynomial installed without an identifier:
+fp_prime_set_dense / _pmers / _pairf, fp_param_set_any_dense, fb_poly_set_*; another identifier, the same one again, one
+the build rejects, the *_set_any* selectors; a curve installed without an identifier: ep_curve_set_plain / _super, an
+ep_curve_set_endom that fails half-way, eb_curve_set; selections of the other curve modules; random sequences of these),
+then the identifier is selected again and what is installed is judged: the modulus is the identifier's (the published
+one where a standard defines it), the parameters are those of the first selection, the obligations above hold, and the
+library's arithmetic (field, fixed- and variable-base multiplication, addition) agrees with the models built from the
+values the getters report.  One (identifier, history) = one case, the obligations are its comparisons.
 """
 import ctypes
 import math
@@ -21,7 +32,11 @@ LEVEL = "exploration"
 RULE = ("exhaustive over identifiers: every enumerator of relic_fp.h / relic_fb.h / relic_ep.h / relic_eb.h / relic_ed.h "
         "is offered to the selection function of each build; each accepted identifier is one parameter set and each "
         "obligation about it (listed in the key after '|') is one case, evaluated by an independent Python model on "
-        "values read back from the library; distinct = distinct (identifier, obligation); all cases are non-trivial")
+        "values read back from the library; distinct = distinct (identifier, obligation); all cases are non-trivial; "
+        "selection histories: (identifier, history class) with history class = one public state-changing call of the "
+        "lists HIST (or a random sequence of 2-4 of them) executed between two selections of the identifier - quick tier: "
+        "one history of each group of QUICK_GROUPS per identifier, rotating with the identifier's position and VERIF_SEED; "
+        "thorough tier: the full product and 12 random sequences per identifier")
 ASSUMPTIONS = ["Python integers; Miller-Rabin with 36 bases for primality (probabilistic, error < 2^-72)",
                "the affine curve models of verif/model (prime fields, Fp2 towers measured from the library's own "
                "u^2 and v^3) and the GF(2^m) model in this file",
@@ -32,6 +47,10 @@ ASSUMPTIONS = ["Python integers; Miller-Rabin with 36 bases for primality (proba
                "documented domain: recorded in the evidence, not judged",
                "the sparse-form getter is asked after every other accepted field has been installed once, so the "
                "answer must not depend on the history of the context",
+               "selection histories: an identifier names one parameter set, so what a successful selection installs must "
+               "not depend on the calls that preceded it; the calls of a history themselves are not judged (they may be "
+               "rejected); reference = what the first selection of the identifier in the process installed (judged by "
+               "the other parts) and, for NIST / SECG / Brainpool / SM2 / SM9 / Curve25519 / BLS12-381, the published modulus",
                "cofactor-clearing maps: ep_mul_cof must return [h]P, or for the BLS families the effective cofactor "
                "[1-x]P (RFC 9380 8.8.1 h_eff, Piellard 2022/352); ep2_mul_cof is documented as 'the cofactor or a small "
                "multiple for which a short vector exists': BLS12 must equal [3(x^2-1)*h2]P (Budroni-Pintore, RFC 9380 "
@@ -1863,7 +1882,12 @@ def st_foreign_eb_curve(R, rg, env):
     R.bn_free(h)
 
 
-STEPS = {"dense-prime": st_dense_prime, "any-dense-prime": st_any_dense, "sparse-prime": st_pmers_prime,
+def st_own_binary(R, rg, env):
+    st_penta_poly(R, rg, env, dense=rg.random() < 0.5)
+    st_foreign_eb_curve(R, rg, env)
+
+
+STEPS = {"own-polynomial-and-curve": st_own_binary, "dense-prime": st_dense_prime, "any-dense-prime": st_any_dense, "sparse-prime": st_pmers_prime,
          "family-prime": st_family_prime, "other-field-id": st_other_field_id, "same-field-id": st_same_field_id,
          "foreign-field-id": st_foreign_field_id, "any-field": st_any_field, "curve-selection": st_curve_selection,
          "other-curve": st_other_curve, "same-id-again": st_select, "any-curve": st_any_curve,
@@ -1884,14 +1908,15 @@ HIST = {"fp": FIELD_STEPS + ["same-id-again", "curve-selection", "edwards-curve-
         "fb": ["pentanomial", "dense-polynomial", "other-polynomial-id", "same-id-again", "binary-curve-selection"],
         "eb": ["pentanomial", "dense-polynomial", "other-polynomial-id", "same-polynomial-id", "same-id-again",
                "other-binary-curve", "any-binary-curve", "rejected-binary-curve-id", "foreign-binary-curve",
-               "curve-selection"]}
+               "own-polynomial-and-curve", "curve-selection"]}
 # Quick tier: a few histories per identifier - one of each group below, which one rotates with the position of the
 # identifier and with VERIF_SEED (so one run spreads the histories over the identifiers of a build and further seeds move
 # them on); every identifier always gets one history that replaces the modulus (polynomial) behind it and, for curves,
 # one that replaces the curve behind it.  The full product identifier x history, more random sequences and all the
 # obligations of the identifier after each history run in the thorough tier.  Selecting a binary field or curve costs a
-# quarter of a second in the sanitizer builds: the quick tier runs one binary-curve history per run (the curve selection
-# re-selects its field, so a stale binary-field selection shows there too) and no binary step inside the prime histories.
+# quarter of a second in the sanitizer builds: the quick tier runs one binary-curve history per run (polynomial and
+# curve both replaced behind the identifier; the curve selection re-selects its field, so a stale binary-field selection
+# shows there too; which identifier: rotates with VERIF_SEED) and no binary step inside the prime histories.
 REPLACES_MODULUS = ["dense-prime", "any-dense-prime", "sparse-prime", "family-prime"]
 REPLACES_CURVE = ["foreign-plain-curve", "failed-endom-curve", "own-prime-and-curve", "foreign-super-curve"]
 QUICK_GROUPS = {"ep": [REPLACES_MODULUS, REPLACES_CURVE,
@@ -1900,7 +1925,7 @@ QUICK_GROUPS = {"ep": [REPLACES_MODULUS, REPLACES_CURVE,
                 "fp": [REPLACES_MODULUS, ["same-id-again", "curve-selection", "sequence", "other-field-id", "any-field",
                                           "foreign-field-id", "same-field-id", "edwards-curve-selection"]],
                 "ed": [REPLACES_MODULUS, ["curve-selection", "same-id-again", "sequence", "other-field-id"]],
-                "eb": [["pentanomial", "foreign-binary-curve", "dense-polynomial", "other-polynomial-id"]],
+                "eb": [["own-polynomial-and-curve"]],
                 "fb": []}
 SETTER = {"fp": "fp_param_set", "ep": "ep_param_set", "ed": "ed_param_set", "fb": "fb_param_set", "eb": "eb_param_set"}
 
@@ -1947,6 +1972,18 @@ def snapshot(R, X, kind):
             P = R.ep_params()
             P.update(opt_a=L.ep_curve_opt_a(), opt_b=L.ep_curve_opt_b(), level=L.ep_param_level(),
                      embed=L.ep_curve_embed() if R.has("ep_curve_embed") else 0)
+            # hash-to-curve constants that the installation of THIS curve writes (c2 is a leftover for the isogeny
+            # maps, c5 = sqrt(-3) is written for a = 0 or b = 0 only)
+            S = R.S
+            c = [R.fp_raw(S.vf_x18_ptr(1, i)) for i in range(5)]
+            P["map"] = [R.fp_raw(S.vf_x18_ptr(0, 0)), c[0], c[2], c[3]] + ([] if P["ctmap"] else [c[1]]) + \
+                       ([c[4]] if (P["a"] == 0 or P["b"] == 0) and not P["super"] else [])
+            if P["ctmap"] and "off_iso_st_a" in X:
+                iso = ptr_fn(R, "ep_curve_get_iso")()
+                degs = [R.rd_int(iso + X["off_iso_st_deg_" + k_]) for k_ in ("xn", "xd", "yn", "yd")]
+                P["iso"] = [R.fp_raw(iso + X["off_iso_st_a"]), R.fp_raw(iso + X["off_iso_st_b"]), degs] + \
+                           [[R.fp_raw(iso + X["off_iso_st_" + k_] + i * R.fp_sz) for i in range(min(max(d, 0), X["RLC_EP_CTMAP_MAX"] - 1) + 1)]
+                            for k_, d in zip(("xn", "xd", "yn", "yd"), degs)]
             return P
         if kind == "ed":
             p = R.fp_setup()
@@ -1991,6 +2028,10 @@ def check_curve_after(ob, R, X, nm, v, hist, ref):
     ob("parameters-unchanged", lambda: unchanged({k_: P[k_] for k_ in ("a", "b", "gx", "gy", "n", "h")}, ref))
     ob("flags-unchanged", lambda: unchanged({k_: P[k_] for k_ in ("endom", "pairf", "super", "ctmap", "opt_a", "opt_b",
                                                                   "level", "embed")}, ref))
+    # the map constants are recomputed by every installation: their defining equations are judged by group 'map' of part
+    # 'ep' on the plain selection; after a history they must be those same values (internal representation included)
+    ob("map-constants-unchanged", lambda: (P["map"] == ref["map"] and P.get("iso") == ref.get("iso"),
+                                           {"observed": [hx(t) for t in P["map"]], "first-selection": [hx(t) for t in ref["map"]]}))
     ob("field-prime", lambda: (is_prime(p) and p.bit_length() == R.K["RLC_FP_BITS"], {"p": hx(p)}))
     if not is_prime(p):
         return
@@ -2027,7 +2068,7 @@ def check_curve_after(ob, R, X, nm, v, hist, ref):
         # thorough tier: every obligation of the identifier again (the expensive twist / cofactor-map groups only after
         # the histories that replace the modulus or the curve behind the identifier)
         heavy = hist in ("dense-prime", "family-prime", "foreign-plain-curve", "own-prime-and-curve", "failed-endom-curve")
-        for group in ("base", "map") + (("pairing", "cof") if heavy else ()):
+        for group in ("base",) + (("pairing", "cof") if heavy else ()):
             check_curve(ob, R, X, nm, v, group, hist=hist)
 
 
@@ -2115,7 +2156,7 @@ def run_hist(ctx, R, X, ob, kinds, unit=0, fps=None):
     used = {}
     for kind, ids in todo:
         if ctx.quick and kind == "eb" and ids:
-            ids = [ids[(ctx.seed // len(QUICK_GROUPS["eb"][0])) % len(ids)]]       # one binary-curve history per run
+            ids = [ids[ctx.seed % len(ids)]]       # one binary-curve history per run
         for idx, (nm, v) in enumerate(ids):
             env = dict(env0, v=v, setter=SETTER[kind])
             hs, single = histories(ctx, kind, env, idx)
